@@ -13,7 +13,8 @@ def norm(s):
 def in_order(words, hay):
     it = iter(hay)
     # rst() appends '.' to a text that ends in a double quote (documented guard against closing the docstring)
-    return all(any(w == h or (w.endswith('"') and h == w + ".") for h in it) for w in words)
+    # ... and to one that ends in a backslash (it would escape the closing quotes)
+    return all(any(w == h or (w.endswith(('"', "\\")) and h == w + ".") for h in it) for w in words)
 
 
 def exercise(ctx):
